@@ -396,7 +396,7 @@ func rulePRODGUARD(c *Ctx, r *Report) {
 				if pi == nil || pi.Kind != "expr" {
 					continue
 				}
-				key := fmt.Sprintf("%s[%s]|scalar-pos%d", row.name(), tag, d)
+				key := fmt.Sprintf("production:%s|scalar-pos%d", tag, d)
 				// is there a dominating fact that the operand is a Literal leaf?
 				proven := false
 				for _, o := range row.Other {
